@@ -2,6 +2,7 @@ package core
 
 import (
 	"bytes"
+	"context"
 	"fmt"
 	"strings"
 	"testing"
@@ -23,6 +24,7 @@ type c08Case struct {
 	Release   []int  // release order: indexes into the In+Out handlers
 	Cut       bool   // cut the connection after Close began and before the last release
 	CutAfter  int    // number of releases before the cut
+	Prior     []string // operations completed on the closing side's session before anything is in flight: okcall | failcall | push | unencodable (the argument cannot be marshalled: the call fails locally) | deadctx (the call's context is already cancelled: it fails locally)
 }
 
 func genC08(t *rapid.T, protos []vt.NamedProto) c08Case {
@@ -37,6 +39,7 @@ func genC08(t *rapid.T, protos []vt.NamedProto) c08Case {
 	if c.In+c.Out > 0 {
 		c.CutAfter = rapid.IntRange(0, c.In+c.Out-1).Draw(t, "cutafter")
 	}
+	c.Prior = rapid.SliceOfN(rapid.SampledFrom([]string{"okcall", "failcall", "push", "unencodable", "unencodable", "deadctx"}), 0, 3).Draw(t, "prior")
 	return c
 }
 
@@ -85,6 +88,41 @@ func runC08(c c08Case, protos []vt.NamedProto) []string {
 	}
 	var fails []string
 	failf := func(format string, a ...interface{}) { fails = append(fails, fmt.Sprintf(format, a...)) }
+
+	// history before the close: completed operations, some of which failed locally (never written)
+	for i, op := range c.Prior {
+		rid := fmt.Sprintf("prior%d", i)
+		var cmd erpc.CallCmd
+		switch op {
+		case "okcall":
+			cmd = closer.Call(ra, &LibArg{Rid: rid, Act: "ret", Val: "v"}, new(LibRes))
+			if !cmd.StatusOK() {
+				failf("prior call %d failed: %v", i, cmd.Status())
+			}
+		case "failcall":
+			cmd = closer.Call(ra, &LibArg{Rid: rid, Act: "err", Code: 4242, Msg: "m"}, new(LibRes))
+			if cmd.Status().Code() != 4242 {
+				failf("prior failing call %d completed with %v", i, cmd.Status())
+			}
+		case "push":
+			closer.Push(ra, &LibArg{Rid: rid})
+		case "unencodable":
+			cmd = closer.Call(ra, make(chan int), new(LibRes))
+			if cmd.StatusOK() {
+				failf("a call whose argument cannot be marshalled completed OK")
+			}
+		case "deadctx":
+			dead, cancel := context.WithCancel(context.Background())
+			cancel()
+			cmd = closer.Call(ra, &LibArg{Rid: rid, Act: "ret"}, new(LibRes), erpc.WithContext(dead))
+			if cmd.StatusOK() {
+				failf("a call with an already cancelled context completed OK")
+			}
+		}
+	}
+	if len(fails) > 0 {
+		return fails
+	}
 
 	var calls []*c08Call
 	mk := func(from erpc.Session, rid string, inbound bool) *c08Call {
@@ -264,7 +302,7 @@ func runC08(c c08Case, protos []vt.NamedProto) []string {
 	return fails
 }
 
-const ruleC08 = "one session between two peers; 0-4 calls in flight towards the closing side and 0-4 issued by it, every handler gated and ENTERED before Close (session-level or peer-level, on either end) is invoked; 0-2 more calls are issued right after Close began; handlers are released in a generated permutation, optionally with a connection cut after a generated number of releases; oracle (logical clock + wire capture): Close does not return while an entered handler of the closing side runs or one of its own calls is unanswered; every call whose handler was entered before Close completes OK with its genuine result unless the connection was cut first; Close returns after all releases, after the handlers' exits and after their REPLY frames are on the wire; late calls complete exactly once; non-trivial = >=1 handler entered and unreleased when Close is invoked; distinct by case"
+const ruleC08 = "one session between two peers; first 0-3 operations complete on the closing side's session (call answered OK / failed by its handler, push, call that fails locally because its argument cannot be marshalled or its context is already cancelled); then 0-4 calls in flight towards the closing side and 0-4 issued by it, every handler gated and ENTERED before Close (session-level or peer-level, on either end) is invoked; 0-2 more calls are issued right after Close began; handlers are released in a generated permutation, optionally with a connection cut after a generated number of releases; oracle (logical clock + wire capture): Close does not return while an entered handler of the closing side runs or one of its own calls is unanswered; every call whose handler was entered before Close completes OK with its genuine result unless the connection was cut first; Close returns after all releases, after the handlers' exits and after their REPLY frames are on the wire; late calls complete exactly once; non-trivial = >=1 handler entered and unreleased when Close is invoked; distinct by case"
 
 func TestC08GracefulClose(t *testing.T) {
 	rec := vt.NewRec(t, "C08", "graceful-close", ruleC08)
